@@ -18,7 +18,14 @@ def make_copy(dst):
         t = os.path.join(dst, d)
         os.makedirs(os.path.dirname(t), exist_ok=True)
         if os.path.isdir(s):
-            shutil.copytree(s, t, ignore=shutil.ignore_patterns("obj", "*.o", "*.a", "*.so*", "zstd", "zstd-*"))
+            # have_*.c / have_*: probe files the upstream programs/Makefile creates and removes whenever make parses it (also under -n)
+            for attempt in range(3):
+                try:
+                    shutil.copytree(s, t, ignore=shutil.ignore_patterns("obj", "*.o", "*.a", "*.so*", "zstd", "zstd-*", "have_*"), dirs_exist_ok=True)
+                    break
+                except shutil.Error:
+                    if attempt == 2:
+                        raise
         else:
             shutil.copy(s, t)
 
